@@ -14,7 +14,7 @@ for line in last.values():
     d, pid, rc, viol = f
     notes = open(f'/verif/{d}/notes.md').read() if os.path.exists(f'/verif/{d}/notes.md') else ''
     title = notes.strip().splitlines()[0].lstrip('# ').strip() if notes.strip() else ''
-    title = re.sub(r'^(Mutation\s+)?C\d\d(-[AB])?\s*(mutation)?\s*[:\-–]\s*', '', title, flags=re.I)
+    title = re.sub(r'^(Mutation\s+)?C\d\d(-[A-Z])?\s*(mutation)?\s*[:\-–]\s*', '', title, flags=re.I)
     if rc == '0':
         res = '**missed**'
     elif 'no-failing-input-found' in viol:
